@@ -532,6 +532,16 @@ func (d *DFS) Run() DFSResult {
 		}
 		var i, n int
 		fmt.Sscanf(parts[1], "%d/%d", &i, &n)
+		// the budget is the parent's: a worker re-derives d.Budget on its own way here (earlier stages of a ladder are
+		// skipped in no time in a worker, which would hand their whole budget on as spare time)
+		if v := os.Getenv("VERIF_DEADLINE"); v != "" {
+			var ns int64
+			fmt.Sscanf(v, "%d", &ns)
+			deadline = time.Time{}
+			if ns > 0 {
+				deadline = time.Unix(0, ns)
+			}
+		}
 		if d.GCEvery > 0 {
 			debug.SetGCPercent(-1)
 		}
@@ -608,7 +618,11 @@ func (d *DFS) runProcs(deadline time.Time) DFSResult {
 			defer wg.Done()
 			out := filepath.Join(dir, fmt.Sprintf("%d.json", i))
 			cmd := exec.Command(os.Args[0], os.Args[1:]...)
-			cmd.Env = append(os.Environ(), fmt.Sprintf("VERIF_WORKER=%s|%d/%d", d.Name, i, d.Procs), "VERIF_OUT="+out, fmt.Sprintf("GOMAXPROCS=%d", d.WorkerProcs))
+			var dl int64
+			if !deadline.IsZero() {
+				dl = deadline.UnixNano()
+			}
+			cmd.Env = append(os.Environ(), fmt.Sprintf("VERIF_WORKER=%s|%d/%d", d.Name, i, d.Procs), "VERIF_OUT="+out, fmt.Sprintf("GOMAXPROCS=%d", d.WorkerProcs), fmt.Sprintf("VERIF_DEADLINE=%d", dl))
 			var stderr strings.Builder
 			cmd.Stderr = &stderr
 			cmd.Stdout = &stderr
